@@ -15,12 +15,17 @@ subprocess.run(["git", "-C", "/repo", "worktree", "remove", "--force", wt], capt
 subprocess.run(["git", "-C", "/repo", "worktree", "add", "--detach", wt, "HEAD"], check=True, capture_output=True)
 env = dict(os.environ, CARGO_NET_OFFLINE="true", CARGO_TARGET_DIR=wt + "/target")
 env.pop("RUSTFLAGS", None)
+EXTRA_CRATES = os.environ.get("SEED_EXTRA_CRATES", "").split()
 def tests(extra):
     e = env
     if extra and use_cfg:
         e = dict(env, RUSTFLAGS="--cfg edp_rs_verif", CARGO_TARGET_DIR=wt + "/target-cfg")
         extra = extra + ["--", "--test-threads=1"]
-    p = subprocess.run(["cargo", "test", "-p", crate, "--offline", "--no-fail-fast"] + extra, cwd=wt, env=e,
+    pk = ["-p", crate]
+    if not extra:
+        for c in EXTRA_CRATES:   # crates the change touches besides the one the demo lives in: their existing tests too
+            pk += ["-p", c]
+    p = subprocess.run(["cargo", "test"] + pk + ["--offline", "--no-fail-fast"] + extra, cwd=wt, env=e,
                        stdout=subprocess.PIPE, stderr=subprocess.STDOUT, text=True)
     res = re.findall(r"test result: (\w+)\. (\d+) passed; (\d+) failed", p.stdout)
     errs = len(re.findall(r"^error\[E\d+\]|^error: could not compile", p.stdout, re.M))
